@@ -71,3 +71,16 @@ Example C11_repaired :
   compare (VText [x61; x09]) (VText [x61]) CRtrim = 1 /\
   compare (VText [x61; x20]) (VText [x61]) CRtrim = 0.
 Proof. vm_compute. repeat split; reflexivity. Qed.
+
+(* NOCASE is SQLite's (nocaseCollatingFunc = sqlite3StrNICmp over the common length, then the lengths): the loop of
+   nocaseCompare orders two texts as their keys order bytewise, the key of a text being its bytes up to the first NUL
+   with A-Z folded to a-z, then a zero byte, then its total length in unary - i.e. by the folded prefix before the
+   first NUL, a proper prefix first, and then by length.  So 'a\0b' = 'a\0c' < 'a\0bc', and it is a total preorder
+   (C11_refl / C11_total / C11_trans are stated over it). *)
+Theorem C11_nocase_order : forall a b, collate_cmp CNocase a b = bytes_cmp (nocase_key a) (nocase_key b).
+Proof. exact nocase_cmp_key. Qed.
+Print Assumptions C11_nocase_order.
+Example C11_nocase_nul :
+  collate_cmp CNocase [x61; x00; x62] [x41; x00; x63] = Eq /\ collate_cmp CNocase [x61; x00; x62] [x61; x00; x62; x63] = Lt /\
+  collate_cmp CNocase [x61; x00] [x61; x62] = Lt /\ collate_cmp CNocase [x61; x5f] [x61; x41] = Lt.
+Proof. vm_compute. repeat split; reflexivity. Qed.
